@@ -535,3 +535,62 @@ CAMLprim value vp_sorter_add(value s, value k, value v)
 CAMLprim value vp_sorter_iter(value s) { return mk_ptr(mtbl_sorter_iter(PTR(s))); }
 CAMLprim value vp_sorter_write(value s, value w) { return Val_bool(mtbl_sorter_write(PTR(s), PTR(w)) == mtbl_res_success); }
 CAMLprim value vp_sorter_destroy(value s) { struct mtbl_sorter *p = PTR(s); mtbl_sorter_destroy(&p); return Val_unit; }
+
+/* ---- fileset: controlled clock, filters ------------------------------------------- */
+#undef clock_gettime
+#include <time.h>
+static long vp_clock_sec = 1000, vp_clock_nsec = 0;
+/* every reading is strictly later than the previous one: +1 ns per call */
+int vp_clock_gettime(clockid_t clk, struct timespec *ts)
+{
+	(void) clk;
+	vp_clock_nsec += 1; if (vp_clock_nsec >= 1000000000) { vp_clock_sec += 1; vp_clock_nsec -= 1000000000; }
+	ts->tv_sec = vp_clock_sec; ts->tv_nsec = vp_clock_nsec; return 0;
+}
+CAMLprim value vp_set_clock(value sec, value nsec) { vp_clock_sec = Long_val(sec); vp_clock_nsec = Long_val(nsec); return Val_unit; }
+CAMLprim value vp_advance_clock(value sec, value nsec)
+{
+	vp_clock_nsec += Long_val(nsec); vp_clock_sec += Long_val(sec) + vp_clock_nsec / 1000000000; vp_clock_nsec %= 1000000000;
+	return Val_unit;
+}
+/* filename filter: the decimal number in the basename, parity == clos - 1 */
+static bool vp_fname_filter(const char *fname, void *clos)
+{
+	const char *b = strrchr(fname, '/'); b = b ? b + 1 : fname;
+	long n = 0; while (*b && (*b < '0' || *b > '9')) b++;
+	while (*b >= '0' && *b <= '9') { n = n * 10 + (*b - '0'); b++; }
+	return (n % 2) == ((intptr_t) clos - 1);
+}
+/* reader filter: table id = count_entries - 3, parity == clos - 1 */
+static bool vp_reader_filter(struct mtbl_reader *r, void *clos)
+{
+	uint64_t n = mtbl_metadata_count_entries(mtbl_reader_metadata(r));
+	return ((n - 3) % 2) == (uint64_t)((intptr_t) clos - 1);
+}
+static struct mtbl_fileset_options *vp_fs_opts(value interval, value mclos, value nf, value rf)
+{
+	struct mtbl_fileset_options *fo = mtbl_fileset_options_init();
+	mtbl_fileset_options_set_reload_interval(fo, (uint32_t) Long_val(interval));
+	if (PTR(mclos) != NULL) mtbl_fileset_options_set_merge_func(fo, vp_merge_func, PTR(mclos));
+	if (Long_val(nf) > 0) mtbl_fileset_options_set_filename_filter_func(fo, vp_fname_filter, (void *)(intptr_t) Long_val(nf));
+	if (Long_val(rf) > 0) mtbl_fileset_options_set_reader_filter_func(fo, vp_reader_filter, (void *)(intptr_t) Long_val(rf));
+	return fo;
+}
+CAMLprim value vp_fileset_init(value path, value interval, value mclos, value nf, value rf)
+{
+	struct mtbl_fileset_options *fo = vp_fs_opts(interval, mclos, nf, rf);
+	struct mtbl_fileset *f = mtbl_fileset_init(String_val(path), fo);
+	mtbl_fileset_options_destroy(&fo);
+	return mk_ptr(f);
+}
+CAMLprim value vp_fileset_dup(value orig, value interval, value mclos, value nf, value rf)
+{
+	struct mtbl_fileset_options *fo = vp_fs_opts(interval, mclos, nf, rf);
+	struct mtbl_fileset *f = mtbl_fileset_dup(PTR(orig), fo);
+	mtbl_fileset_options_destroy(&fo);
+	return mk_ptr(f);
+}
+CAMLprim value vp_fileset_destroy(value f) { struct mtbl_fileset *p = PTR(f); mtbl_fileset_destroy(&p); return Val_unit; }
+CAMLprim value vp_fileset_source(value f) { return mk_ptr(mtbl_fileset_source(PTR(f))); }
+CAMLprim value vp_fileset_reload(value f) { mtbl_fileset_reload(PTR(f)); return Val_unit; }
+CAMLprim value vp_fileset_reload_now(value f) { mtbl_fileset_reload_now(PTR(f)); return Val_unit; }
